@@ -550,6 +550,31 @@ def rule_defer_wrapper(ctx):
             if not ok:
                 r.violate(du.name, "defer", "the Deferred handed to Local::defer is not the one built from the closure", du.loc(0))
     r.require(n, 4, "deferral wrapper paths")
+    # an unprotected guard (local == null: the collector tearing down its own queue and list) runs the function at once -
+    # exactly once: dropping it unrun loses what Queue::drop / List::drop and the tear-down paths hand to it
+    DU = "ebr_impl::guard::Guard::defer_unchecked"
+    if DU in prog.bodies:
+        ub = prog.body(DU)
+        nn = 0
+        for p in ctx.ex.paths(ub):
+            if p.exit[0] != "return":
+                continue
+            nullc = [e for e in p.events if e.kind == "cond" and isinstance(e.term, tuple) and e.term[0] == "disc" and
+                     "Guard.local" in show(e.term)]
+            v0 = nullc[0].value if nullc else None
+            isnone = v0 == 0 or (isinstance(v0, tuple) and v0[0] == "not" and 1 in v0[1])
+            if not isnone:
+                continue
+            nn += 1
+            runs = [e for e in p.events if e.kind in ("call", "hof", "enter") and
+                    (norm(e.target or "") == "std::ops::FnOnce::call_once" or (e.kind == "enter"))]
+            okn = len([e for e in p.events if e.kind == "call" and norm(e.target or "") == "std::ops::FnOnce::call_once"]) == 1
+            r.instance("defer_unchecked on an unprotected guard calls f exactly once, now", okn)
+            if not okn:
+                r.violate(DU, "unprotected", "with an unprotected guard the function is not run exactly once on the spot: it is "
+                          "dropped unrun (what the collector's own tear-down hands over is never freed) or run twice", ub.loc(0))
+        if nn == 0:
+            r.floor_failures.append("CW-DEFER-WRAPPER: no null-local path found in defer_unchecked")
     # Guard::defer_destroy(ptr) - how the list and the queue retire their nodes - defers `ptr.drop()`, it does not run it
     DD = "ebr_impl::guard::Guard::defer_destroy"
     if DD in prog.bodies:
@@ -685,6 +710,16 @@ def rule_ebr_init(ctx):
     r.instance("Local::collector == &*self.collector.get()", okk2)
     if not okk2:
         r.violate(kb.name, "collector", "Local::collector does not return the participant's own collector", kb.loc(0))
+    # thread-wide flags start clear (a re-entrancy flag that starts set means: this thread never collects)
+    for st in prog.items.get("statics", []):
+        if st.get("thread_local") and st.get("ty") == "std::cell::Cell<bool>" and st["path"].startswith("ebr_impl::") and "int" in st:
+            okf = int(st["int"]) == 0
+            nm = st["path"].split("::{")[0].split("::")[-1]
+            r.instance("thread-local flag %s starts clear" % nm, okf)
+            if not okf:
+                r.violate(st["path"].split("::{")[0], "init:tls-flag", "the thread-local flag %s starts set: a thread whose "
+                          "re-entrancy flag is set from the start never runs a collection (nothing it or anybody else "
+                          "deferred is reclaimed by it)" % nm, "%s:%s" % (st["span"]["file"], st["span"]["line"]))
     # the collector's queue starts as one sentinel that both ends point to and that has no successor
     QN = "ebr_impl::sync::queue::Queue::<T>::new"
     if QN in prog.bodies:
